@@ -1,19 +1,92 @@
 (** C10  State trie: content-addressed, history-independent, persistent key-value map.
     Only statements, each closed by [exact] of a lemma proved in coq/Trie/, followed by
     [Print Assumptions].  Model: coq/Trie/Model.v (mirrors pkg/trie/trie.go after the F1
-    repair). *)
+    repair); hash layer parametric in the hash function [H]. *)
 From Coq Require Import List Bool Arith NArith.
-From Verif Require Import Trie.Model Trie.Basics Trie.Masc Trie.GetUpdate.
+From Verif Require Import Trie.Model Trie.Basics Trie.Masc Trie.GetUpdate Trie.Canon Trie.History Trie.HashBind.
 Import ListNotations.
 
-(** Map semantics: after Update with a strictly sorted non-empty batch, Get of any key
-    returns the batch's value for it (None for DefaultLeaf) and the old value otherwise. *)
+(** Map semantics of one Update: Get of any key returns the batch's value for it (None for
+    DefaultLeaf) and the old value otherwise.  Every height, every strictly sorted batch. *)
 Theorem C10_get_after_update :
   forall (val : Type) h (t : tree val) (b : batch val) k,
   wf h t -> keys_len h b -> sorted b -> b <> [] -> length k = h ->
   get (trie_update h t b) k = override b (get t) k.
 Proof. exact @get_update. Qed.
 Print Assumptions C10_get_after_update.
+
+(** Map semantics over a whole history of batches starting from the empty trie: reading a
+    key returns the value last written, or nothing if it was deleted or never written. *)
+Theorem C10_get_after_history :
+  forall (val : Type) h (bs : list (batch val)) k,
+  Forall (good_batch h) bs -> length k = h -> get (run h bs) k = map_of bs k.
+Proof. exact @get_after_history. Qed.
+Print Assumptions C10_get_after_history.
+
+(** update_canon: Update returns THE canonical well-formed tree holding the overridden
+    contents (canonical = every leaf sits at the highest subtree containing only it). *)
+Theorem C10_update_canon :
+  forall (val : Type) h (t : tree val) (b : batch val) t',
+  wf h t -> canon t -> good_batch h b ->
+  wf h t' -> canon t' -> (forall k, length k = h -> get t' k = override b (get t) k) ->
+  trie_update h t b = t'.
+Proof. exact @update_characterised. Qed.
+Print Assumptions C10_update_canon.
+
+(** Canonical shape and well-formedness are preserved, with the [deleted]-flag invariant
+    that makes maybeMoveUpShortcut sufficient. *)
+Theorem C10_update_invariant :
+  forall (val : Type) h (t : tree val) (b : batch val),
+  wf h t -> canon t -> keys_len h b -> sorted b -> b <> [] -> res_ok h t b (update h t b).
+Proof. exact @update_inv. Qed.
+Print Assumptions C10_update_invariant.
+
+(** Canonical trees are determined by their contents. *)
+Theorem C10_canon_unique :
+  forall (val : Type) h (t1 t2 : tree val),
+  wf h t1 -> wf h t2 -> canon t1 -> canon t2 ->
+  (forall k, length k = h -> get t1 k = get t2 k) -> t1 = t2.
+Proof. exact @canon_unique. Qed.
+Print Assumptions C10_canon_unique.
+
+(** History independence: two histories (any batching, order, interleaved deletions) that
+    result in the same map give the same tree ... *)
+Theorem C10_history_independent :
+  forall (val : Type) h (bs1 bs2 : list (batch val)),
+  Forall (good_batch h) bs1 -> Forall (good_batch h) bs2 ->
+  (forall k, length k = h -> map_of bs1 k = map_of bs2 k) ->
+  run h bs1 = run h bs2.
+Proof. exact @history_independent. Qed.
+Print Assumptions C10_history_independent.
+
+(** ... and therefore the same root, for every hash function (no collision caveat). *)
+Theorem C10_root_history_independent :
+  forall (H : bytes -> bytes) h (bs1 bs2 : list (batch bytes)),
+  Forall (good_batch h) bs1 -> Forall (good_batch h) bs2 ->
+  (forall k, length k = h -> map_of bs1 k = map_of bs2 k) ->
+  root H h (run h bs1) = root H h (run h bs2).
+Proof. exact root_history_independent. Qed.
+Print Assumptions C10_root_history_independent.
+
+(** Deleting absent keys changes nothing. *)
+Theorem C10_delete_absent_id :
+  forall (val : Type) h (t : tree val) (b : batch val),
+  wf h t -> canon t -> good_batch h b ->
+  (forall k ov, In (k, ov) b -> ov = None /\ get t k = None) ->
+  trie_update h t b = t.
+Proof. exact @delete_absent_id. Qed.
+Print Assumptions C10_delete_absent_id.
+
+(** Root binding: equal roots of well-formed 256-bit tries with 32-byte values mean equal
+    trees, unless the hash function is broken (collision, or a DefaultLeaf shift pair
+    H x = 0::z, H y = z++[0] — see HashBind.v). *)
+Theorem C10_root_binding :
+  forall (H : bytes -> bytes), (forall x, length (H x) = 32) ->
+  forall t1 t2 : tree bytes,
+  wf 256 t1 -> wf 256 t2 -> vals32 t1 -> vals32 t2 ->
+  root H 256 t1 = root H 256 t2 -> t1 = t2 \/ hash_break H.
+Proof. exact root_binding. Qed.
+Print Assumptions C10_root_binding.
 
 (** The literal maybeAddShortcutToKV loop (after the F1 repair) is the abstract merge of
     the shortcut pair into the batch, on every strictly sorted non-empty batch. *)
